@@ -108,6 +108,11 @@ theorem swarm_step_ok (hpl : 0 < pl) {s : Swarm} (hs : SwarmOK crc pl blob s) (a
     cases ha : s.peers[a]? with
     | none => exact hs
     | some pa => exact swarmOK_setPeer hs (peerOK_of_tor rfl (hs a pa ha))
+  | dialfail a b =>
+    simp only [Swarm.step]
+    cases ha : s.peers[a]? with
+    | none => exact hs
+    | some pa => exact swarmOK_setPeer hs (peerOK_of_tor rfl (hs a pa ha))
   | expire a b i =>
     simp only [Swarm.step]
     cases ha : s.peers[a]? with
@@ -337,6 +342,13 @@ theorem peer_tor_step (crc : Bytes → Nat) (s : Swarm) (act : Swarm.Action) (a 
       have h2 := dropEnd_tor (dropEnd s x y) y x a pm p' hm hp'
       exact Or.inl (by rw [h2, h1])
   | unblacklist x y =>
+    simp only [Swarm.step] at hp'
+    cases hx : s.peers[x]? with
+    | none => rw [hx] at hp'; simp only at hp'; rw [hp] at hp'; cases hp'; exact Or.inl rfl
+    | some px =>
+      rw [hx] at hp'; simp only at hp'
+      exact Or.inl (setPeer_tor_same hx a p p' hp hp' rfl)
+  | dialfail x y =>
     simp only [Swarm.step] at hp'
     cases hx : s.peers[x]? with
     | none => rw [hx] at hp'; simp only at hp'; rw [hp] at hp'; cases hp'; exact Or.inl rfl
